@@ -118,7 +118,7 @@ func (w *Where) buildIdxSel(index []string, mode byte, perCol map[string][]span)
 				lookup := len(exploded[i]) == len(index)
 				if !lookup {
 					assert.That(encode)
-					c.End = c.Org + ixkey.Sep + ixkey.Max
+					c.End = prefixEnd(exploded[i])
 				}
 			}
 		}
@@ -144,6 +144,18 @@ func (w *Where) buildIdxSel(index []string, mode byte, perCol map[string][]span)
 	}
 
 	return &isel
+}
+
+// prefixEnd returns the end of the range for a prefix of single values.
+// It cannot be derived from the org because that has trailing empty values
+// trimmed, so it would also cover the other values of those columns.
+func prefixEnd(vals []span) string {
+	var enc ixkey.Encoder
+	for _, v := range vals {
+		enc.Add(v.org.val)
+	}
+	enc.Add(ixkey.Max)
+	return enc.String()
 }
 
 // allSingleValuePrefix checks if all prefix columns have exactly one value span.
